@@ -107,6 +107,10 @@ type relay struct {
 	processors *streamProcessors
 
 	peer *relay // relay for traffic from the peer
+
+	// done is shared with `peer` and is closed when the session is over, i.e., as soon as either
+	// relay has stopped relaying frames.
+	done chan struct{}
 }
 
 // newRelay initializes a relay for the given direction. This performs only partial initialization
@@ -215,6 +219,10 @@ func (r *relay) relayFrames(closing chan bool) error {
 		case <-closing:
 			// The ReadFrame goroutine is abandoned at this point. It completes as soon as the blocking
 			// ReadFrame call completes, but could potentially leak for an unspecified duration.
+			return nil
+		case <-r.done:
+			// The peer relay has stopped, so the session is over. As for `closing`, the ReadFrame
+			// goroutine is abandoned and completes once its connection is closed.
 			return nil
 		}
 	}
